@@ -1,6 +1,6 @@
 (* C07 — Searching never performs undefined behaviour despite unchecked indexing. *)
-From DV Require Import Model.Base Model.Nfa Model.BwBuild Model.BwSearch Model.Api Model.Cert
-     Proofs.BwSafe.
+From DV Require Import Model.Base Model.Nfa Model.BwBuild Model.BwSearch Model.Utf8 Model.CwBuild Model.Api Model.Cert
+     Proofs.BwSafe Proofs.Utf8Props Proofs.CwSafe.
 Local Open Scope N_scope.
 
 (* Byte-wise automaton: if the range check [bw_safe_b] passes (array length a positive multiple of
@@ -16,6 +16,21 @@ Theorem bw_search_no_ub :
 Proof. intros V A S h Hb. exact (bw_search_no_ub_lemma V A S h Hb). Qed.
 Print Assumptions bw_search_no_ub.
 
+(* Character-wise automaton: if the range check [cw_safe_b] passes (array length a multiple of the
+   power-of-two block length, every mapped code below the block length, bases/fails/output positions
+   in range) then none of the four search methods reaches a UB branch on ANY valid UTF-8 haystack:
+   no out-of-range get_unchecked, no unwrap_unchecked on None and no invalid char in the
+   hand-written decoder, and the leftmost iterator only slices the haystack (get_unchecked(pos..))
+   on character boundaries. *)
+Theorem cw_search_no_ub :
+  forall (V : Type) (A : cw_automaton V), cw_safe_b A = true ->
+  forall cs : list N, Forall scalar cs ->
+    let h := encode_utf8 cs in
+    noub (cw_find_iter V A h) /\ noub (cw_find_overlapping_iter V A h)
+    /\ noub (cw_find_overlapping_no_suffix_iter V A h) /\ noub (cw_leftmost_find_iter V A h).
+Proof. intros V A S cs Hs. exact (cw_search_no_ub_lemma V A S cs Hs). Qed.
+Print Assumptions cw_search_no_ub.
+
 (* the source comment "the length is a multiple of the block size and every base is below the
    length, so base XOR label is below the length", as a lemma *)
 Theorem xor_stays_in_block :
@@ -27,5 +42,11 @@ Print Assumptions xor_stays_in_block.
 Definition ex_pvs : list (list N * Z) := [([0; 255], 1%Z); ([255], 2%Z); ([1; 0; 255], 3%Z); ([97], 4%Z)].
 Example c07_hypotheses_met :
   forallb (fun k => match bw_build_with_values Z k 1 ex_pvs with Ok A => bw_safe_b A | _ => false end)
+          [Standard; LeftmostLongest; LeftmostFirst] = true.
+Proof. vm_compute. reflexivity. Qed.
+
+Example c07_cw_hypotheses_met :
+  forallb (fun k => match cw_build_with_values Z k 1 [([97; 233], 1%Z); ([128512], 2%Z); ([233; 12354; 97], 3%Z)] with
+                    | Ok A => cw_safe_b A | _ => false end)
           [Standard; LeftmostLongest; LeftmostFirst] = true.
 Proof. vm_compute. reflexivity. Qed.
